@@ -149,6 +149,22 @@ def gen_pair_wide(rng, maxn=40):
 	return sorted(set(a)), sorted(set(b))
 
 
+def gen_pair_alias(rng):
+	"""one side in a narrow type, the other in a wider one holding values that are congruent, modulo the narrow type's width, to values of the
+	narrow side (2^bits itself, aliasing 0, as the last element included): a cast of the wide side to the narrow type would create common elements"""
+	bits = rng.choice([16, 32])
+	narrow = rng.choice(['u2', 'i2'] if bits == 16 else ['u4', 'i4'])
+	wide = rng.choice(['u4', 'i4', 'u8', 'i8'] if bits == 16 else ['u8', 'i8'])
+	top = MAXV[narrow]
+	small = sorted(set([0] * rng.randint(0, 1) + [rng.randrange(0, 6) for _ in range(rng.randint(0, 3))] + [rng.randrange(0, top + 1) for _ in range(rng.randint(0, 3))]))
+	k = rng.choice([1, 1, 1, 2, 3])
+	big = sorted(set([x + k * 2 ** bits for x in small if rng.random() < 0.7 and x + k * 2 ** bits <= MAXV[wide]]
+	                 + ([2 ** bits] if rng.random() < 0.6 else []) + [x for x in small if rng.random() < 0.3]))
+	if rng.random() < 0.5:
+		return small, big, narrow, wide
+	return big, small, wide, narrow
+
+
 def gen_pair(rng, maxn=60):
 	"""Structured pair over a universe chosen to produce all overlap patterns."""
 	r = rng.random()
@@ -229,6 +245,12 @@ def run(ctx):
 			break
 		a, b = gen_pair_wide(rng)
 		sub({'kind': 'pair', 'a': a, 'b': b, 'da': fit_dtype(rng, a), 'db': fit_dtype(rng, b)}, 'wide-pair')
+	# one side narrow, the other wide with values that alias the narrow side's modulo 2^16 / 2^32
+	for j in range(ctx.q(600, 6000)):
+		if not ctx.time_left(0.8):
+			break
+		a, b, da, db = gen_pair_alias(rng)
+		sub({'kind': 'pair', 'a': a, 'b': b, 'da': da, 'db': db}, 'alias-pair')
 	# size-only random (large sets, cheap for the driver)
 	for j in range(ctx.q(60, 1500)):
 		if not ctx.time_left(0.8):
